@@ -134,6 +134,20 @@ func registerBigIntrinsics() {
 			setBig(p, a[0], q)
 			return Tuple{a[0], a[3]}
 		},
+		"(*math/big.Int).Lsh": func(p *Path, _ *ssa.Function, a []Value) Value {
+			n := a[2].(*Term)
+			if !n.IsConst() {
+				panic(p.unsupported("big.Int.Lsh by symbolic amount"))
+			}
+			return setBig(p, a[0], p.tb.IMul(bigOf(p, a[1]), p.tb.IntBig(new(big.Int).Lsh(bigOne, uint(n.val.Uint64())))))
+		},
+		"(*math/big.Int).Rsh": func(p *Path, _ *ssa.Function, a []Value) Value {
+			n := a[2].(*Term)
+			if !n.IsConst() {
+				panic(p.unsupported("big.Int.Rsh by symbolic amount"))
+			}
+			return setBig(p, a[0], p.tb.IDiv(bigOf(p, a[1]), p.tb.IntBig(new(big.Int).Lsh(bigOne, uint(n.val.Uint64())))))
+		},
 		"(*math/big.Int).Abs": func(p *Path, _ *ssa.Function, a []Value) Value {
 			return setBig(p, a[0], p.iAbs(bigOf(p, a[1])))
 		},
@@ -186,6 +200,10 @@ func registerBigIntrinsics() {
 		},
 		"(*math/big.Int).Bytes": func(p *Path, _ *ssa.Function, a []Value) Value {
 			x := bigOf(p, a[0])
+			if !x.IsConst() && p.onlyFeedsSetBytes() {
+				// z.SetBytes(x.Bytes()) is |x| whatever the byte length: no fork needed
+				return Slice{lazyBigBytes{p.iAbs(x)}}
+			}
 			k := p.byteLen(x)
 			return p.bigBytes(x, k)
 		},
@@ -203,6 +221,9 @@ func registerBigIntrinsics() {
 			buf := a[1].(Slice)
 			if len(buf) == 0 {
 				return setBig(p, a[0], p.tb.Int(0))
+			}
+			if lb, ok := buf[0].(lazyBigBytes); ok {
+				return setBig(p, a[0], lb.t)
 			}
 			return setBig(p, a[0], p.tb.Bv2Int(p.tb.Concat(termsOf(buf)...)))
 		},
@@ -250,3 +271,35 @@ func (p *Path) iQuo(x, y *Term) *Term {
 }
 
 var _ = fmt.Sprint
+
+// lazyBigBytes is the result of x.Bytes() when the SSA shows that its only use
+// is as the argument of (*big.Int).SetBytes.
+type lazyBigBytes struct{ t *Term }
+
+func (p *Path) onlyFeedsSetBytes() bool {
+	if len(p.frames) == 0 {
+		return false
+	}
+	call, ok := p.frames[len(p.frames)-1].cur.(*ssa.Call)
+	if !ok || call.Referrers() == nil {
+		return false
+	}
+	refs := *call.Referrers()
+	if len(refs) == 0 {
+		return false
+	}
+	for _, r := range refs {
+		if _, isDbg := r.(*ssa.DebugRef); isDbg {
+			continue
+		}
+		c, ok := r.(*ssa.Call)
+		if !ok {
+			return false
+		}
+		callee := c.Call.StaticCallee()
+		if callee == nil || callee.String() != "(*math/big.Int).SetBytes" || len(c.Call.Args) != 2 || c.Call.Args[1] != ssa.Value(call) {
+			return false
+		}
+	}
+	return true
+}
